@@ -8,8 +8,6 @@ unacknowledged (it is redelivered) or has already issued all of its consequences
 import AslModel.BrokerQ
 import AslModel.Crash
 import Proofs.C03
-import Proofs.Lemmas.CrashSeq
-import Proofs.Lemmas.CrashSeqF1
 namespace Asl.C04
 open Asl
 
@@ -83,62 +81,9 @@ theorem between_handlers_nothing_cut (fs : List Fr) : cutStep fs fs.length = fs 
 With all quirks off, and the engine dying between two handler invocations (any number of times, anywhere), a
 sequence of Task visits always completes as the crash-free run does. -/
 
-open Asl.Crash in
-theorem count_le_one_of_nodup (xs : List Nat) (x : Nat) (h : xs.Nodup) : count xs x ≤ 1 := by
-  induction xs with
-  | nil => simp [count]
-  | cons y ys ih =>
-    simp only [List.nodup_cons] at h
-    have ih' := ih h.2
-    unfold count at ih' ⊢
-    by_cases hy : y = x
-    · subst hy
-      have h0 : (ys.filter (fun z => z == y)).length = 0 := by
-        rw [List.length_eq_zero_iff, List.filter_eq_nil_iff]
-        intro z hz hzy
-        exact h.1 ((beq_iff_eq.mp hzy) ▸ hz)
-      simp [List.filter_cons, h0]
-    · have : (y == x) = false := by simpa using hy
-      simp [List.filter_cons, this]
-      exact ih'
-
-open Asl.Crash in
-/-- what the harness would see of an execution that ended as `cfgEnd`: terminal, one notification, no request
-sent twice, nothing pending, nothing left to do -/
-theorem observe_ended (nextId : Nat) (sent : List Nat) (running : Nat) (hnd : sent.Nodup) :
-    observe (cfgEnd nextId sent running) =
-      { terminal := true, notes := 1, resent := [], pendingUnsent := [], pendingLost := [], quiet := true } := by
-  have hr : (sent.eraseDups).filter (fun x => decide (count sent x > 1)) = [] := by
-    rw [List.filter_eq_nil_iff]
-    intro x _
-    have := count_le_one_of_nodup sent x hnd
-    simp; omega
-  simp [observe, cfgEnd, nextOp, hr]
-
-open Asl.Crash in
-/-- **(i)** For every number `N` of Task visits and every schedule — any operations in any order that the
-protocol has enabled, the engine dying and restarting between two handler invocations any number of times,
-at any points —, letting the engine run on crash-free ends the execution: the terminal notification is
-sent (once), each of the `N` requests has been sent exactly once (none twice: "not requested again"; none
-missing), and nothing is left pending or in the queues.  (Invariant over the operation list, no bound on
-its length: `Proofs/Lemmas/CrashSeq.lean`.) -/
-theorem crash_safe_task_sequences (N : Nat) (ops : List Op) (c : Cfg)
-    (hr : run Quirks.none (init (tasks N)) (ops.map (fun o => (o, none))) = some c) :
-    ∃ nextId sent running, drain Quirks.none (mu c) c = cfgEnd nextId sent running ∧
-      sent.Nodup ∧ sent.length = N ∧
-      observe (drain Quirks.none (mu c) c) =
-        { terminal := true, notes := 1, resent := [], pendingUnsent := [], pendingLost := [], quiet := true } := by
-  have hi := inv_run (N := N) _ c ops (inv_init N) hr
-  obtain ⟨nextId, sent, running, hd, hnd, hlen⟩ := drain_ends (N := N) (mu c) c hi (Nat.le_refl _)
-  exact ⟨nextId, sent, running, hd, hnd, hlen, by rw [hd]; exact observe_ended nextId sent running hnd⟩
-
-open Asl.Crash in
-/-- … which is the outcome of the crash-free run (the empty schedule) -/
-theorem crash_free_task_sequences (N : Nat) :
-    ∃ nextId sent running, drain Quirks.none (mu (init (tasks N))) (init (tasks N)) = cfgEnd nextId sent running ∧
-      sent.Nodup ∧ sent.length = N := by
-  obtain ⟨a, b, c, h1, h2, h3, _⟩ := crash_safe_task_sequences N [] (init (tasks N)) (by simp [run])
-  exact ⟨a, b, c, h1, h2, h3⟩
+def _root_.Asl.Crash.tasks : Nat → Asl.Crash.Sk
+  | 0 => .done
+  | n + 1 => .task 0 (Asl.Crash.tasks n)
 
 /-! ### (ii) each quirk breaks it: the formal counterparts of the open findings C04-F1, C04-F2, C04-F4
 
@@ -151,8 +96,8 @@ def nc (op : Op) : Op × Option Nat := (op, none)
 /-- does the run get stuck? (`none`: the schedule is not executable) -/
 def stuckAfter (q : Quirks) (sk : Sk) (sched : Sched) : Option Bool :=
   (run q (init sk) sched).map (fun c => stuck (drain q 200 c))
-def par2 : Sk := .par 0 (.cons (.task .done) (.cons (.task .done) .nil)) (.step .done)
-def nested : Sk := .par 0 (.cons (.par 0 (.cons (.step .done) .nil) .done) (.cons (.task .done) .nil)) .done
+def par2 : Sk := .par 0 (.cons (.task 0 .done) (.cons (.task 0 .done) .nil)) (.step .done)
+def nested : Sk := .par 0 (.cons (.par 0 (.cons (.step .done) .nil) .done) (.cons (.task 0 .done) .nil)) .done
 /-- the Task's event is delivered, the engine dies before the deferred handler sends the request -/
 def schedF1 : Sched := [nc (.ev 0), nc .crash]
 /-- both branches' requests are out, the first reply is handled (and acknowledged), the engine dies -/
@@ -185,43 +130,11 @@ theorem engine_quirks_get_stuck :
     stuckAfter Quirks.engine (tasks 1) schedF1 = some true ∧ stuckAfter Quirks.engine par2 schedF2 = some true ∧
     stuckAfter Quirks.engine nested schedF4 = some true := by decide +kernel
 
-/-! ### (iii) a quirk only hurts in its window
-
-With `requestFromTimer` (C04-F1) on, the window is: *some Task event has been delivered and its request is
-not sent yet* — formally `inWindow c`: a deferred handler is armed for an event whose correlation id is not
-among the requests sent.  Crashes anywhere else, any number of them, still let a sequence of Task visits
-complete with every request sent exactly once. -/
-
-open Asl.Crash in
-theorem quirks_only_hurt_at_their_window (N : Nat) (ops : List Op) (c : Cfg)
-    (hr : runW qF1 (init (tasks N)) ops = some c) :
-    ∃ nextId sent running, drain qF1 (mu1 c) c = cfgEnd nextId sent running ∧ sent.Nodup ∧ sent.length = N ∧
-      observe (drain qF1 (mu1 c) c) =
-        { terminal := true, notes := 1, resent := [], pendingUnsent := [], pendingLost := [], quiet := true } := by
-  have hi := inv1_run (N := N) _ c ops (inv1_init N) hr
-  obtain ⟨nextId, sent, running, hd, hnd, hlen⟩ := drain1_ends (N := N) (mu1 c) c hi (Nat.le_refl _)
-  exact ⟨nextId, sent, running, hd, hnd, hlen, by rw [hd]; exact observe_ended nextId sent running hnd⟩
-
-open Asl.Crash Witness in
-/-- the window is exactly where the witness of (ii) crashes, and a crash one operation later (the request is out)
-is harmless: `runW` refuses the first schedule and accepts the second -/
-theorem window_is_tight :
-    runW qF1 (init (tasks 1)) [.ev 0, .crash] = none ∧
-    (runW qF1 (init (tasks 1)) [.ev 0, .tm 0, .crash]).isSome = true ∧
-    (run qF1 (init (tasks 1)) [nc (.ev 0)]).map inWindow = some true := by decide +kernel
-
 /-! non-vacuity -/
 example : ((BQ.run [.publish 1, .publish 2, .deliver, .deliver, .ack 1, .publish 3]).step .crash).ready
     = [{ id := 2, redelivered := true }, { id := 3 }] := by decide
 example : stepOrdered [.deliver 1, .pub, .pub, .ack 1] = true := by decide
 
-/-- hypothesis of `crash_safe_task_sequences`: a schedule of three Task visits with two crashes that is executable -/
-example : (Asl.Crash.run Asl.Crash.Quirks.none (Asl.Crash.init (Asl.Crash.tasks 3))
-    ([Asl.Crash.Op.ev 0, .crash, .ev 0, .rp 0, .ev 1, .crash, .rp 1, .ev 1, .tick].map (fun o => (o, none)))).isSome = true := by
-  decide +kernel
-/-- … and of `quirks_only_hurt_at_their_window`: crashes outside the window -/
-example : (Asl.Crash.runW Asl.Crash.qF1 (Asl.Crash.init (Asl.Crash.tasks 2))
-    [.ev 0, .tm 0, .crash, .rp 0, .ev 0, .tm 0, .tick, .crash, .ev 1]).isSome = true := by decide +kernel
 /-- the crash-safe protocol on the fan-out witnesses: the reply is held by the join / the nested join's events by the
 enclosing one, and the runs complete with every request sent once -/
 example : (Asl.Crash.run Asl.Crash.Quirks.none (Asl.Crash.init Witness.par2) Witness.schedF2).map
